@@ -232,6 +232,18 @@ retry:
      * After scan border, optimistic verify support this is atomic.
      */
     permutation perm(bn->get_permutation().get_body());
+    /**
+     * When the scan of this node ends at (or inside) a next-layer link and no
+     * value of this node was in range, this node must still be logged for phantom
+     * verification: a key inserted into this node may lie in the scanned range.
+     */
+    auto log_node_if_not_logged = [&tuple_pushed_num, &node_version_vec, &v_at_fb,
+                                   bn]() {
+        if (!tuple_pushed_num && node_version_vec != nullptr) {
+            node_version_vec->emplace_back(
+                    std::make_pair(v_at_fb, bn->get_version_ptr()));
+        }
+    };
     // check all elements in border node.
     for (std::size_t i = 0, n = perm.get_cnk(); i < n; ++i) {
         std::size_t index = perm.get_index_of_rank(right_to_left ? n-i-1 : i);
@@ -310,9 +322,13 @@ retry:
                                      r_key.size() < full_key.size()
                                              ? r_key.size()
                                              : full_key.size());
-                if (ret_cmp < 0) { return status::OK_SCAN_END; }
+                if (ret_cmp < 0) {
+                    log_node_if_not_logged();
+                    return status::OK_SCAN_END;
+                }
                 if (ret_cmp == 0) {
                     if (r_key.size() <= full_key.size()) {
+                        log_node_if_not_logged();
                         return status::OK_SCAN_END;
                     }
                     arg_r_key = r_key;
@@ -331,6 +347,7 @@ retry:
                 goto retry; // NOLINT
             }
             if (max_size != 0 && tuple_list.size() >= max_size) {
+                log_node_if_not_logged();
                 return status::OK_SCAN_END;
             }
         } else {
